@@ -23,7 +23,8 @@ Pick:  START: atomic.LoadInt32(&m.status)==2 ?            Act.load      [load]
        m.balance.Pick()                                     Act.balEnter r, balSize j, balIdx j
 Run:   numLoops := atomic.LoadInt32(&m.numLoops); compare with len(m.polls); copy   RPc.load  [rload]
        m.polls[idx].Close()                  (shrink loop)  RPc.close     [rclose]
-       poll, err = openPoll()                (grow loop)    RPc.open      [ropen]   (f = it fails)
+       poll, err = openPoll()                (grow loop)    RPc.open      [ropen]   (f = it fails; then, in the
+         err != nil: m.polls = polls[:idx]; return err                                   same step, the store)
        go poll.Wait()                                       RPc.go        [rgo]
        m.polls = polls                                      RPc.store     [rstore]
        m.balance.Rebalance: b.polls = polls                 RPc.rebal1    [rrebal] (one source statement,
@@ -204,10 +205,11 @@ def runStep (s : S) (i : Nat) (fail : Bool) : Option S :=
         else some (s1.setRunner i { r with pc := .store, idx := r.idx + 1 })
     | .open =>
       if fail then
-        -- `return err`; deferred func: `_ = m.Close()` ranges over the OLD m.polls; the pollers
-        -- opened so far in the local slice are dropped (leaked: open, loop running)
-        let s1 := { s with fails := s.fails + 1 }
-        if s.polls.length = 0 then some (s1.setRunner i { r with pc := .eclear, idx := 0 })
+        -- `m.polls = polls[:idx]; return err` (since the fix of F2: the slice filled so far – the old pollers
+        -- and the ones opened and started by this call – is handed to the deferred `_ = m.Close()`, which
+        -- ranges over m.polls, closes every one of them and clears the manager)
+        let s1 := { s with fails := s.fails + 1, polls := r.np }
+        if r.np.length = 0 then some (s1.setRunner i { r with pc := .eclear, idx := 0 })
         else some (s1.setRunner i { r with pc := .eclose, idx := 0 })
       else
         some ({ s with opened := s.opened + 1 }.setRunner i { r with pc := .go, np := r.np ++ [s.opened] })
@@ -235,6 +237,20 @@ def runStep (s : S) (i : Nat) (fail : Bool) : Option S :=
         if r.idx + 1 < s.polls.length then some (s1.setRunner i { r with idx := r.idx + 1 })
         else some (s1.setRunner i { r with pc := .eclear, idx := r.idx + 1 })
     | .eclear => some ({ s with numLoops := 0, bal := none, polls := [] }.runReturn i)
+
+/-- the failing `openPoll` step of `Run` BEFORE the fix of F2 (`return err` without the store): the deferred
+`m.Close()` ranges over the OLD `m.polls`; the pollers opened so far in the local slice are dropped (open, loop
+running, in no slice).  Every other step is `runStep`.  Only for the regression witness. -/
+def runStepPreF2 (s : S) (i : Nat) (fail : Bool) : Option S :=
+  match s.runners[i]? with
+  | none => none
+  | some r =>
+    match r.pc, fail with
+    | .open, true =>
+      let s1 := { s with fails := s.fails + 1 }
+      if s.polls.length = 0 then some (s1.setRunner i { r with pc := .eclear, idx := 0 })
+      else some (s1.setRunner i { r with pc := .eclose, idx := 0 })
+    | _, _ => runStep s i fail
 
 def step (s : S) : Act → Option S
   | .spawn => some { s with cLoad := s.cLoad + 1 }
